@@ -211,7 +211,21 @@ TraceWrap ==
                   <<"C05", "C05:returned-without-stop-condition", E.mustlimit => WarnFlag(t) # 0>> >>
      IN Probe(cl) /\ AllTrue(cl) /\ s' = [Resolve(t) EXCEPT !.pc = "idle", !.stopped = TRUE] /\ UNCHANGED pend
 
-TraceNext == \/ TraceWrap \/ TraceCall \/ TraceIter \/ TraceRet \/ TraceSetLimits \/ TraceSetCfg \/ TraceFinalize
+(* A FAULT: the user's objective raised inside the running Step and the caller caught it.  The call was made, so    *)
+(* it counts (the recorder counted it before raising); nothing else is claimed of the aborted step and the trace    *)
+(* ends here.  (DE2 is not driven with faults: it counts from what its map returns.)                                *)
+TraceAbort ==
+  /\ IsEvent("Abort")
+  /\ LET cl == << <<"C04", "C04:evaluation-counter", E.fcalls = E.real>>,
+                  <<"C05", "C05:abort-outside-a-call", s.pc \in {"pre", "post"}>> >>
+     IN Probe(cl) /\ AllTrue(cl)
+  /\ l' = Len(Tr) + 1
+  /\ s' = [s EXCEPT !.pc = "idle", !.fcalls = E.real, !.real = E.real, !.nsm = E.nsm, !.dec = E.dec, !.nem = E.nem,
+                    !.live = E.live, !.ncb = E.ncb, !.embase = E.real - E.nem, !.iters = Gens([s EXCEPT !.nsm = E.nsm, !.dec = E.dec]),
+                    !.began = FALSE, !.stopped = FALSE]
+  /\ UNCHANGED pend
+
+TraceNext == TraceAbort \/ TraceWrap \/ TraceCall \/ TraceIter \/ TraceRet \/ TraceSetLimits \/ TraceSetCfg \/ TraceFinalize
              \/ TraceSetEvalMon \/ TraceSetStepMon \/ TraceSetTerm \/ TraceExit \/ TraceQuery
 
 TraceSpec == TraceInit /\ [][TraceNext]_tvars
